@@ -217,7 +217,7 @@ def run(ctx):
         return _after_model(ctx, quick, rnd, binary, defect, runs)
     mc = vf.tlc_must_pass(ctx, "MC_Cluster", "MC_Cluster_quick.cfg", timeout=900, workers=WORKERS, heap="6g")
     runs.append(dict(cfg="MC_Cluster_quick", distinct=mc.distinct, generated=mc.generated, depth=mc.depth))
-    for cfg in ("MC_Cluster_dup", "MC_Cluster_filter"):
+    for cfg in ("MC_Cluster_dup", "MC_Cluster_filter", "MC_Cluster_split"):
         mf = vf.tlc_must_pass(ctx, "MC_Cluster", cfg + ".cfg", timeout=900, workers=WORKERS, heap="6g")
         runs.append(dict(cfg=cfg, distinct=mf.distinct, generated=mf.generated, depth=mf.depth))
     md = vf.run_tlc(ctx, "MC_Cluster", "MC_Cluster_defect.cfg", timeout=600, workers=WORKERS, heap="4g")
@@ -245,16 +245,26 @@ def _after_model(ctx, quick, rnd, binary, defect, runs):
         ("all-mixed-2", dict(), lambda: _gen(ctx, "gen_all2.cfg", _consts(defect=defect, depth=2, mixed=True), workers=2)[0]),
         ("all-refresh-3", dict(), lambda: _gen(ctx, "gen_ref3.cfg", _consts(defect=defect, depth=3, mixed=False), workers=2)[0]),
     ]
+    # multi-homed nodes (rpc_address # peer / broadcast_address, also for the control node): refresh,
+    # refresh, then one status event for ANY address - those of nodes that just vanished or moved included
+    jobs.append(("split-late-3", dict(c0peer="b0"), lambda: _gen(
+        ctx, "gen_split3.cfg", _consts(defect=defect, depth=3, mixed=False, maxlen=1 if quick else 2, split=True, late=True, c0peer="b0"),
+        workers=2)[0]))
+    if not quick:
+        jobs.append(("split-mixed-2", dict(c0peer="b0"), lambda: _gen(
+            ctx, "gen_split2.cfg", _consts(defect=defect, depth=2, mixed=True, maxlen=1, split=True, c0peer="b0"), workers=2)[0]))
     if not quick:
         jobs.append(("all-refresh-2-len3-dup", dict(),
                      lambda: _gen(ctx, "gen_ref3m.cfg", _consts(defect=defect, depth=2, mixed=False, maxlen=3, dup=True), workers=2)[0]))
     for filt in ((), ("a3",), ("a1", "a2")):
-        jobs.append(("sim-filter%d" % len(filt), dict(filt=filt), (lambda filt=filt: _thin(_gen(
-            ctx, "gen_sim%d.cfg" % len(filt), _consts(defect=defect, depth=dep, sim=True, bad=True, dup=True, maxlen=3, filt=filt, burst=24),
+        c0 = "b0" if len(filt) != 1 else "a0"
+        jobs.append(("sim-filter%d" % len(filt), dict(filt=filt, c0peer=c0), (lambda filt=filt, c0=c0: _thin(_gen(
+            ctx, "gen_sim%d.cfg" % len(filt), _consts(defect=defect, depth=dep, sim=True, bad=True, dup=True, maxlen=3, filt=filt, burst=24,
+                                                       split=True, c0peer=c0),
             simulate="num=%d" % (ntr if len(filt) < 2 else ntr // 3), depth=dep + 1, seed=ctx.seed * 7 + len(filt), timeout=900)[0], 2, rnd))))
     if not quick:
-        jobs.append(("sim-4x4", dict(nids=4, naddrs=4), lambda: _thin(_gen(
-            ctx, "gen_sim44.cfg", _consts(nids=4, naddrs=4, defect=defect, depth=7, sim=True, bad=True, dup=True, maxlen=3),
+        jobs.append(("sim-4x4", dict(nids=4, naddrs=4, c0peer="b0"), lambda: _thin(_gen(
+            ctx, "gen_sim44.cfg", _consts(nids=4, naddrs=4, defect=defect, depth=7, sim=True, bad=True, dup=True, maxlen=3, split=True, c0peer="b0"),
             simulate="num=300", depth=8, seed=ctx.seed * 7 + 5, timeout=1200)[0], 2, rnd)))
     with cf.ThreadPoolExecutor(4) as ex:
         results = list(ex.map(lambda j: j[2](), jobs))
@@ -269,7 +279,7 @@ def _after_model(ctx, quick, rnd, binary, defect, runs):
     direct = list(scs)
     # end to end: EVENT frames on the control connection, real debouncers, heartbeat reconnection
     nw = 24 if quick else 160
-    hs, _ = _gen(ctx, "gen_wire.cfg", _consts(defect=defect, depth=3 if quick else 4, sim=True, bad=False, dup=False, maxlen=3, burst=40, ordered=False),
+    hs, _ = _gen(ctx, "gen_wire.cfg", _consts(defect=defect, depth=3 if quick else 4, sim=True, bad=False, dup=False, maxlen=3, burst=40, ordered=False, split=True),
                  simulate="num=%d" % nw, depth=5, seed=ctx.seed * 7 + 3, timeout=600)
     wire = _scenarios(_thin(hs, 1, rnd)[:nw], len(scs), mode="wire", src="wire")
     scs += wire
@@ -325,7 +335,8 @@ def _after_model(ctx, quick, rnd, binary, defect, runs):
     )
     ctx.assumptions += [
         "steps are compared at quiescence (pools filled or given up); interleavings inside one refresh are not enumerated",
-        "peer rows have distinct addresses (system.peers is keyed by the peer address); a host id may be reported twice",
+        "peer rows have distinct addresses (system.peers is keyed by the peer address); a host id may be reported twice; "
+        "a node's node-to-node address is its connect address aK or a private address bK of its own",
         "the control connection stays on / returns to the dedicated control node (the other nodes refuse system.local)",
         "round-robin policy observed; direct-mode histories bypass the two 1 s debounce timers (the wire-mode ones do not)",
         "bounded: 3 ids x 3 addresses (4 x 4 sampled in the thorough tier), depth as in model_configs",
